@@ -55,6 +55,77 @@ def run_c15(tier, seed):
                 continue          # C01/C02's recorded finding, not a field-order matter
             viol("python.decode", name, dev, {"value": val, "canonical": canon, "observed": dec})
         backends["python"] += 1
+    # ---- the twins of a base as successive VERSIONS of one struct: each in its own schema under one shared name, all parsed and
+    # used one after the other in this one process.  Anything remembered per struct NAME from an earlier version (a field-order
+    # memo, a size memo) shows here; the expectation of a renamed twin is the expectation of the twin.
+    def refs(t, acc):
+        if t["k"] in ("struct", "enum"):
+            acc.add(t["name"])
+        if t["k"] in ("arr", "dyn", "opt"):
+            refs(t["t"], acc)
+
+    def mini(name, shared):
+        need, todo = set(), [name]
+        while todo:
+            n = todo.pop()
+            if n in need:
+                continue
+            need.add(n)
+            st_ = glue.find(sch["structs"], n) if any(x["name"] == n for x in sch["structs"]) else None
+            if st_:
+                acc = set()
+                for f in st_["fields"]:
+                    refs(f["type"], acc)
+                todo += sorted(acc)
+        m = {"structs": [json.loads(json.dumps(x)) for x in sch["structs"] if x["name"] in need],
+             "enums": [x for x in sch["enums"] if x["name"] in need],
+             "impls": [json.loads(json.dumps(x)) for x in sch["impls"] if x["type"] == name],
+             "services": [], "devices": []}
+        for x in m["structs"]:
+            if x["name"] == name:
+                x["name"] = shared
+        for x in m["impls"]:
+            x["type"] = shared
+            if x.get("name") == name:
+                x["name"] = shared
+        return m
+
+    by_base = {}
+    for c in cases:
+        by_base.setdefault(meta[c["struct"]]["base"], {}).setdefault(c["struct"], []).append(c)
+    for base, per in sorted(by_base.items()):
+        order = sorted(per, key=lambda n: meta[n]["twin"])
+        order = order + order[:1]          # and back to the first version
+        for name in order:
+            shared = "Ver%d" % base
+            try:
+                msch = mini(name, shared)
+                mfcp, _ = pycodec.parse_schema(msch)
+            except (RuntimeError, KeyError) as e:
+                raise core.Machinery("renamed twin %s of base %s not accepted by the front end: %s" % (name, base, e))
+            for c in per[name]:
+                val, canon = c["value"], c["bytes"]
+                chk.count(1, traces=1)
+                st_, enc = pycodec.encode(mfcp, msch, shared, val)
+                if st_ != "ok" or enc != canon:
+                    viol("python.encode", name, ("bytes-differ" if st_ == "ok" else st_) + ":as-a-later-version-of-one-struct",
+                         {"value": val, "canonical": canon, "observed": enc, "versions_before": order[:order.index(name)]})
+                st2, dec = pycodec.decode(mfcp, msch, shared, canon)
+                if st2 != "ok" or dec != val:
+                    from .chk_wire import classify_diff
+                    dev = classify_diff(msch, shared, val, dec) if st2 == "ok" else st2
+                    if dev.startswith("signed-minimum"):
+                        continue
+                    viol("python.decode", name, dev + ":as-a-later-version-of-one-struct",
+                         {"value": val, "canonical": canon, "observed": dec})
+            if structs[name]["can"] and msch["impls"]:
+                chk.count(1, traces=1)
+                obs = run_history(mfcp, 1, [msch["impls"][0].get("name", shared)])[0]
+                e = [(l["start"], l["len"]) for l in structs[name]["layout"]]
+                g = [(l["start"], l["len"]) for l in obs["ret"]] if not obs["raised"] else None
+                if g is None or sorted(e) != sorted(g):
+                    viol("layout", name, "positions-differ:as-a-later-version-of-one-struct", {"expected": e, "observed": g, "error": obs.get("error")})
+        backends["python-versions"] = backends.get("python-versions", 0) + 1
     # ---- packed layout and DBC
     out = os.path.join(chk.workdir, "out")
     st, files = generate_dbc(fcp, out)
